@@ -7,6 +7,7 @@ CONSTANTS
   BatchSz = 2
   InCap = 0
   AsyncHWM = FALSE
+  SigCap = 2
   MaxFlips = 3
   MaxLeaders = 1
   MaxRestarts = 0
@@ -20,7 +21,8 @@ CONSTANTS
   HWMAfterSendOK = TRUE
   PruneToHWMOnly = TRUE
   RewindCursor = TRUE
+  ParkedKeptUntilSent = TRUE
   RestartHWMBelowLowest = TRUE
   DropReapplied = TRUE
 SYMMETRY Sym
-INVARIANTS TypeOK Labelled NoSkip TenureOrder TakenStored KeysBounded
+INVARIANTS TypeOK Labelled NoSkip TenureOrder TakenStored KeysBounded LoopShape
